@@ -1,4 +1,5 @@
 import Martian.Lemmas.Config
+import Martian.Generated.Config
 /-!
 C12 — A JSON modifier configuration means what its tree says, for every tree.
 Only property theorems and non-vacuity examples live here.
@@ -238,6 +239,36 @@ theorem traffic_follows_last_accepted (s : Active) (bodies : List Node) (k : Kin
     | false =>
       have : lastValid (bs ++ [b]) = lastValid bs := by simp [lastValid, hv]
       rw [this, rejected_leaves_previous _ b hv, ih]
+
+/-! ## 7. Regenerated facts (from `/repo`'s source on every run; `decide` on a finite table) -/
+
+/-- The event order of `martianhttp.Modifier.servePOST` that `Config.servePOST` transcribes. -/
+def expectedServePOST : List (String × String) :=
+  [("return", ""), ("call", "parse.FromJSON"), ("return", ""), ("call", "json.Indent"), ("return", ""),
+   ("call", "m.mu.Lock"), ("defer", "m.mu.Unlock"), ("write", "m.config"),
+   ("call", "m.setRequestModifier"), ("call", "m.setResponseModifier")]
+
+theorem facts_servePOST_order : Generated.Config.servePOST = expectedServePOST := by decide
+
+/-- an event that changes the handler's state -/
+def isStateWrite (e : String × String) : Bool :=
+  e.1 == "write" || e.2 == "m.setRequestModifier" || e.2 == "m.setResponseModifier" ||
+  e.2 == "m.SetRequestModifier" || e.2 == "m.SetResponseModifier"
+
+/-- What that order means: the body is parsed before the lock is taken and before any state is
+written; every early `return` precedes every write; both sides are installed under one lock. -/
+theorem facts_servePOST_parse_then_swap :
+    let ev := Generated.Config.servePOST
+    let firstWrite := ev.findIdx isStateWrite
+    ev.idxOf ("call", "parse.FromJSON") < ev.idxOf ("call", "m.mu.Lock") ∧ ev.idxOf ("call", "m.mu.Lock") < firstWrite ∧
+    (∀ i, i < ev.length → ev[i]? = some ("return", "") → i < firstWrite) ∧
+    ev.contains ("call", "m.setRequestModifier") ∧ ev.contains ("call", "m.setResponseModifier") ∧
+    ev.count ("call", "m.mu.Lock") = 1 := by
+  rw [facts_servePOST_order]; decide
+
+/-- Both insertion loops of `priority.Group` test `new.priority >= existing.priority` (the `ins` of the model). -/
+theorem facts_priority_insert_test : Generated.Config.prioInsertTest =
+    ["AddRequestModifier: preqmod.priority >= m.priority", "AddResponseModifier: presmod.priority >= m.priority"] := by decide
 
 /-! ## Non-vacuity (concrete witnesses; `decide` here is a test, not a proof of the property) -/
 
